@@ -54,6 +54,17 @@ struct XTop_ : state_machine_def<XTop_> {
   template<class F,class Ev> void no_transition(Ev const&,F&,int){ g_log += "NT "; }
 };
 typedef BE<XTop_> XTop;
+// the same under active_state_switch_before_transition (the policy that writes the target id right after a successful guard): a row leaving
+// an exit point that is NOT active must leave the enclosing region's active id alone
+#include <boost/msm/active_state_switching_policies.hpp>
+struct XTopB_ : state_machine_def<XTopB_> {
+  typedef msm::active_state_switch_before_transition active_state_switch_policy;
+  struct Done : state<> {};
+  typedef XSub initial_state;
+  struct transition_table : mpl::vector< Row<XSub::exit_pt<XSub_::Out>, leave, Done, A<7>, none> > {};
+  template<class F,class Ev> void no_transition(Ev const&,F&,int){ g_log += "NT "; }
+};
+typedef BE<XTopB_> XTopB;
 #if IS_BACK_CT
 BOOST_MSM_BACK_GENERATE_PROCESS_EVENT(Sub)
 BOOST_MSM_BACK_GENERATE_PROCESS_EVENT(XSub)
@@ -180,6 +191,10 @@ int main(int argc, char** argv) {
   { XTop m; m.start(); g_log.clear(); leave l0(false); int r = (int)m.process_event(l0);
     // the inner guard rejected: something reacted (a guard), so no no_transition and a non-zero result on every back-end / policy
     report("exitpt.guard-rejects", r != 0 && !has(g_log, "NT") && !has(g_log, "NTsub") && count(g_log, "gL") == 1 && !has(g_log, "a7"), "C06,C13,C09", "ret=" + std::to_string(r) + " log=[" + g_log + "]"); }
+  { XTopB m; m.start(); const int in_sub = cur(m,0); g_log.clear(); leave l0(false); m.process_event(l0); const int after_reject = cur(m,0);
+    leave l1(true); int r = (int)m.process_event(l1);
+    report("exitpt.inactive-exit-point-row-is-inert.before-transition-policy", after_reject == in_sub && (r & 1) && count(g_log, "a7") == 1 && !has(g_log, "NT") && cur(m,0) != in_sub, "C09,C03,C19",
+           "active id " + std::to_string(in_sub) + " -> " + std::to_string(after_reject) + " after the rejected attempt; then ret=" + std::to_string(r) + " log=[" + g_log + "]"); }
   { XTop m; m.start(); g_log.clear(); leave l1(true); int r = (int)m.process_event(l1);
     report("exitpt.taken", (r & 1) && count(g_log, "a7") == 1 && !has(g_log, "NT"), "C09,C13,C07", "ret=" + std::to_string(r) + " log=[" + g_log + "]"); }
 #if !IS_MP11 && !defined(CFG_back11)
